@@ -52,11 +52,14 @@ def tv0 (exts : List ExtData) : List SD := exts.map (fun s => (s.satData, s.diss
 def tv1 (exts : List ExtData) : List SD := sortSD (·.wCount) (tv0 exts)
 def tv2 (exts : List ExtData) : List SD := sortSD (·.wSize) (tv1 exts)
 def tv3 (exts : List ExtData) : List SD := sortSD (·.ssSize) (tv2 exts)
+def tv4 (exts : List ExtData) : List SD := sortSD (·.execStack) (tv3 exts)
+def tv5 (exts : List ExtData) : List SD := sortSD (·.execOps) (tv4 exts)
 
 theorem chosen_bound (e : Bool) : ∀ (sds : List SatDissat) (exts : List ExtData) (ch : List Bool)
     (ws : List (List Ph)), AllSB e sds exts → ch.length = sds.length →
     StacksOf (List.zipWith choose ch sds) ws →
     (List.zip (tv0 exts) ch).map Prod.fst = tv0 exts
+    ∧ (List.zip (tv0 exts) ch).length = sds.length
     ∧ (List.zip (tv0 exts) ch).countP (fun x => x.2) = ch.countP id
     ∧ (∀ x ∈ List.zip (tv0 exts) ch, Valid x)
     ∧ (ws.map List.length).sum ≤ ((List.zip (tv0 exts) ch).map (val (·.wCount))).sum
@@ -88,13 +91,13 @@ theorem chosen_bound (e : Bool) : ∀ (sds : List SatDissat) (exts : List ExtDat
           simp only [AllSB] at hall
           simp only [List.zipWith_cons_cons, StacksOf] at hst
           obtain ⟨⟨hsat, hdis⟩, hrest⟩ := hall
-          obtain ⟨i1, i2, i3, i4, i5, i6⟩ := ih xs bs ws hrest (by simpa using hlen) hst.2
+          obtain ⟨i1, i0, i2, i3, i4, i5, i6⟩ := ih xs bs ws hrest (by simpa using hlen) hst.2
           simp only [tv0, List.map_cons, List.zip_cons_cons, List.countP_cons, List.sum_cons,
-            List.mem_cons] at i1 i2 i3 i4 i5 i6 ⊢
+            List.mem_cons, List.length_cons] at i1 i0 i2 i3 i4 i5 i6 ⊢
           cases b with
           | true =>
             obtain ⟨d, hd, c1, c2, c3⟩ := hsat w (by simpa [choose] using hst.1)
-            refine ⟨by rw [i1], by simp [i2], ?_, ?_, ?_, ?_⟩
+            refine ⟨by rw [i1], by rw [i0], by simp [i2], ?_, ?_, ?_, ?_⟩
             · rintro y (rfl | hy)
               · simp [Valid, hd]
               · exact i3 y hy
@@ -104,7 +107,7 @@ theorem chosen_bound (e : Bool) : ∀ (sds : List SatDissat) (exts : List ExtDat
               simp only [val, satV, hd, Option.getD_some, if_true]; omega
           | false =>
             obtain ⟨d, hd, c1, c2, c3⟩ := hdis w (by simpa [choose] using hst.1)
-            refine ⟨by rw [i1], by simp [i2], ?_, ?_, ?_, ?_⟩
+            refine ⟨by rw [i1], by rw [i0], by simp [i2], ?_, ?_, ?_, ?_⟩
             · rintro y (rfl | hy)
               · simp [Valid, hd]
               · exact i3 y hy
@@ -115,64 +118,70 @@ theorem chosen_bound (e : Bool) : ∀ (sds : List SatDissat) (exts : List ExtDat
 
 /-! ### the library's threshold figure -/
 
-/-- none of the first `k+1` differences (children having both figures) is negative -/
-def cutOk (k : Nat) (proj : SatData → Nat) (v : List SD) : Prop :=
-  ∀ x ∈ v.reverse.take (k + 1), x.1.isSome = true → x.2.isSome = true → disV proj x ≤ satV proj x
+theorem threshold_satData_eq (k : Nat) (exts : List ExtData) :
+    (threshold k exts).satData =
+      (match threshFold k (·.wCount) (fun a b => a + b) 0 0 (tv1 exts).reverse,
+             threshFold k (·.wSize) (fun a b => a + b) 0 0 (tv2 exts).reverse,
+             threshFold k (·.ssSize) (fun a b => a + b) 0 0 (tv3 exts).reverse,
+             threshFold k (·.execStack) execCmb 0 0 (tv4 exts).reverse,
+             threshFold k (·.execOps) (fun a b => a + b) 0 0 (tv5 exts).reverse with
+       | some c, some s, some ss, some st, some o => some (⟨s, c, ss, st, o⟩ : SatData)
+       | _, _, _, _, _ => none) := rfl
 
-def cutOkB (k : Nat) (proj : SatData → Nat) (v : List SD) : Bool :=
-  (v.reverse.take (k + 1)).all fun x => !(x.1.isSome && x.2.isSome) || decide (disV proj x ≤ satV proj x)
-
-theorem cutOk_of_B {k : Nat} {proj : SatData → Nat} {v : List SD} (h : cutOkB k proj v = true) :
-    cutOk k proj v := by
-  intro x hx h1 h2
-  have := List.all_eq_true.1 h x hx
-  simpa [h1, h2] using this
-
-def CutOk (k : Nat) (exts : List ExtData) : Prop :=
-  cutOk k (·.wCount) (tv1 exts) ∧ cutOk k (·.wSize) (tv2 exts) ∧ cutOk k (·.ssSize) (tv3 exts)
-
-theorem threshold_satData {k : Nat} {exts : List ExtData} {d : SatData}
-    (h : (threshold k exts).satData = some d) :
-    threshFold k (·.wCount) (fun a b => a + b) 0 0 (tv1 exts).reverse = some d.wCount
-    ∧ threshFold k (·.wSize) (fun a b => a + b) 0 0 (tv2 exts).reverse = some d.wSize
-    ∧ threshFold k (·.ssSize) (fun a b => a + b) 0 0 (tv3 exts).reverse = some d.ssSize := by
-  simp only [threshold] at h
-  split at h
-  · rename_i c s ss st o h1 h2 h3 _ _
-    cases h
-    exact ⟨h1, h2, h3⟩
-  · cases h
-
-/-- the satisfier chose at most `k` children: the produced stack fits the library's figure -/
+/-- The satisfier chose exactly `min k n` children and every child has a dissatisfaction figure:
+the library's figure EXISTS and bounds the sum of the chosen figures. -/
 theorem threshold_sat_bound (k : Nat) (exts : List ExtData) (z0 : List ZE)
     (hz : z0.map Prod.fst = tv0 exts) (hvalid : ∀ x ∈ z0, Valid x)
-    (hcount : z0.countP (fun x => x.2) ≤ k) (d : SatData)
-    (hd : (threshold k exts).satData = some d) (hcut : CutOk k exts) :
-    (z0.map (val (·.wCount))).sum ≤ d.wCount ∧ (z0.map (val (·.wSize))).sum ≤ d.wSize
-    ∧ (z0.map (val (·.ssSize))).sum ≤ d.ssSize := by
-  obtain ⟨f1, f2, f3⟩ := threshold_satData hd
-  obtain ⟨c1, c2, c3⟩ := hcut
-  -- the vector is re-sorted in place: carry the choices along
+    (hcount : z0.countP (fun x => x.2) = min k z0.length)
+    (hdis : ∀ x ∈ z0, x.1.2.isSome = true) :
+    ∃ d, (threshold k exts).satData = some d
+      ∧ (z0.map (val (·.wCount))).sum ≤ d.wCount ∧ (z0.map (val (·.wSize))).sum ≤ d.wSize
+      ∧ (z0.map (val (·.ssSize))).sum ≤ d.ssSize := by
+  -- the vector is re-sorted in place for each field: carry the choices along
   let z1 := sortZ (·.wCount) z0
   let z2 := sortZ (·.wSize) z1
+  let z3 := sortZ (·.ssSize) z2
+  let z4 := sortZ (·.execStack) z3
   have p1 : z1.Perm z0 := sortZ_perm _ z0
   have p2 : z2.Perm z0 := (sortZ_perm _ z1).trans p1
+  have p3 : z3.Perm z0 := (sortZ_perm _ z2).trans p2
+  have p4 : z4.Perm z0 := (sortZ_perm _ z3).trans p3
   have m1 : z1.map Prod.fst = tv1 exts := by simp only [z1, sortZ_map_fst, hz, tv1]
   have m2 : z2.map Prod.fst = tv2 exts := by simp only [z2, sortZ_map_fst, m1, tv2]
-  refine ⟨?_, ?_, ?_⟩
+  have m3 : z3.map Prod.fst = tv3 exts := by simp only [z3, sortZ_map_fst, m2, tv3]
+  have m4 : z4.map Prod.fst = tv4 exts := by simp only [z4, sortZ_map_fst, m3, tv4]
+  have tr : ∀ {z : List ZE}, z.Perm z0 → (∀ x ∈ z, Valid x) ∧
+      z.countP (fun x => x.2) = min k z.length ∧ (∀ x ∈ z, x.1.2.isSome = true) := by
+    intro z p
+    exact ⟨fun x hx => hvalid x (p.mem_iff.1 hx), by rw [p.countP_eq, p.length_eq]; exact hcount,
+      fun x hx => hdis x (p.mem_iff.1 hx)⟩
+  obtain ⟨v1, c1, d1⟩ := tr p1
+  obtain ⟨v2, c2, d2⟩ := tr p2
+  obtain ⟨v3, c3, d3⟩ := tr p3
+  obtain ⟨v4, c4, d4⟩ := tr p4
+  have s1 := thresh_fold_defined (·.wCount) (fun a b => a + b) k z0 hvalid hcount hdis
+  have s2 := thresh_fold_defined (·.wSize) (fun a b => a + b) k z1 v1 c1 d1
+  have s3 := thresh_fold_defined (·.ssSize) (fun a b => a + b) k z2 v2 c2 d2
+  have s4 := thresh_fold_defined (·.execStack) execCmb k z3 v3 c3 d3
+  have s5 := thresh_fold_defined (·.execOps) (fun a b => a + b) k z4 v4 c4 d4
+  rw [hz] at s1; rw [m1] at s2; rw [m2] at s3; rw [m3] at s4; rw [m4] at s5
+  obtain ⟨c, hc⟩ := Option.isSome_iff_exists.1 s1
+  obtain ⟨s, hs⟩ := Option.isSome_iff_exists.1 s2
+  obtain ⟨ss, hss⟩ := Option.isSome_iff_exists.1 s3
+  obtain ⟨st, hst⟩ := Option.isSome_iff_exists.1 s4
+  obtain ⟨o, ho⟩ := Option.isSome_iff_exists.1 s5
+  refine ⟨⟨s, c, ss, st, o⟩, ?_, ?_, ?_, ?_⟩
+  · rw [threshold_satData_eq]
+    simp only [tv1, tv2, tv3, tv4, tv5] at hc hs hss hst ho ⊢
+    rw [hc, hs, hss, hst, ho]
   · apply thresh_field_bound (·.wCount) k z0 _ _ hvalid hcount
-    · rw [hz]; exact c1
-    · rw [hz]; exact f1
+    rw [hz]; exact hc
   · rw [← (p1.map (val (·.wSize))).sum_nat]
-    apply thresh_field_bound (·.wSize) k z1 _ _ (fun x hx => hvalid x (p1.mem_iff.1 hx))
-      (by rw [p1.countP_eq]; exact hcount)
-    · rw [m1]; exact c2
-    · rw [m1]; exact f2
+    apply thresh_field_bound (·.wSize) k z1 _ _ v1 c1
+    rw [m1]; exact hs
   · rw [← (p2.map (val (·.ssSize))).sum_nat]
-    apply thresh_field_bound (·.ssSize) k z2 _ _ (fun x hx => hvalid x (p2.mem_iff.1 hx))
-      (by rw [p2.countP_eq]; exact hcount)
-    · rw [m2]; exact c3
-    · rw [m2]; exact f3
+    apply thresh_field_bound (·.ssSize) k z2 _ _ v2 c2
+    rw [m2]; exact hss
 
 /-! ### which children the satisfier satisfies -/
 
@@ -207,17 +216,95 @@ theorem ite_ite_stack {c1 c2 : Prop} [Decidable c1] [Decidable c2] {x : Sat} {w 
     x.stack = .stack w := by
   by_cases h1 : c1 <;> by_cases h2 : c2 <;> simp_all [Sat.IMPOSSIBLE, Sat.UNAVAILABLE]
 
-theorem countP_contains_le (l : List Nat) (hl : l.Nodup) : ∀ m : List Nat,
-    l.countP (fun i => m.contains i) ≤ m.length := by
-  intro m
-  induction m with
+theorem countP_eq_one : ∀ (l : List Nat), l.Nodup → ∀ a : Nat, a ∈ l →
+    l.countP (fun i => decide (i = a)) = 1 := by
+  intro l
+  induction l with
+  | nil => intro _ a h; simp at h
+  | cons x xs ih =>
+    intro hl a ha
+    obtain ⟨hx, hxs⟩ := List.nodup_cons.1 hl
+    simp only [List.countP_cons]
+    by_cases h : x = a
+    · subst h
+      have : xs.countP (fun i => decide (i = x)) = 0 := by
+        apply List.countP_eq_zero.2
+        intro y hy; simp; rintro rfl; exact hx hy
+      simp [this]
+    · have ha' : a ∈ xs := by
+        rcases List.mem_cons.1 ha with h' | h'
+        · exact absurd h'.symm h
+        · exact h'
+      have := ih hxs a ha'
+      simp [h, this]
+
+theorem countP_or_disjoint {α : Type} (p q : α → Bool) (l : List α)
+    (h : ∀ x ∈ l, ¬ (p x = true ∧ q x = true)) :
+    l.countP (fun x => p x || q x) = l.countP p + l.countP q := by
+  induction l with
   | nil => simp
   | cons a as ih =>
-    have h1 := countP_or_le (fun i => decide (i = a)) (fun i => as.contains i) l
-    have h2 : l.countP (fun i => decide (i = a)) ≤ 1 := countP_eq_le_one l hl a
+    have ih' := ih (fun x hx => h x (List.mem_cons_of_mem _ hx))
+    have ha := h a (List.mem_cons_self ..)
+    simp only [List.countP_cons, ih']
+    cases hp : p a <;> cases hq : q a <;> simp_all <;> omega
+
+/-- distinct indices, all in range: as many range elements are "chosen" as there are indices -/
+theorem countP_contains_eq (l : List Nat) (hl : l.Nodup) : ∀ m : List Nat, m.Nodup → (∀ a ∈ m, a ∈ l) →
+    l.countP (fun i => m.contains i) = m.length := by
+  intro m
+  induction m with
+  | nil => intro _ _; simp
+  | cons a as ih =>
+    intro hm hsub
+    obtain ⟨ha, has⟩ := List.nodup_cons.1 hm
     have e : (fun i => (a :: as).contains i) = (fun i => decide (i = a) || as.contains i) := by
       funext i; simp
-    rw [e]; simp only [List.length_cons]; omega
+    rw [e, countP_or_disjoint]
+    · rw [countP_eq_one l hl a (hsub a (List.mem_cons_self ..)),
+        ih has (fun x hx => hsub x (List.mem_cons_of_mem _ hx))]
+      simp only [List.length_cons]; omega
+    · intro x _ ⟨h1, h2⟩
+      simp only [decide_eq_true_eq] at h1
+      subst h1
+      exact ha (by simpa using h2)
+
+theorem insertIdx_perm (key : Nat → SortKey) (i : Nat) (l : List Nat) :
+    (insertIdx key i l).Perm (i :: l) := by
+  induction l with
+  | nil => exact List.Perm.refl _
+  | cons y ys ih =>
+    simp only [insertIdx]
+    split
+    · exact ((List.perm_cons y).2 ih).trans (List.Perm.swap i y ys)
+    · exact List.Perm.refl _
+
+theorem sortIdx_perm (key : Nat → SortKey) (n : Nat) : (sortIdx key n).Perm (List.range n) := by
+  have : ∀ (v acc : List Nat), (v.foldl (fun acc i => insertIdx key i acc) acc).Perm (v ++ acc) := by
+    intro v
+    induction v with
+    | nil => intro acc; exact List.Perm.refl _
+    | cons x xs ih =>
+      intro acc
+      simp only [List.foldl_cons]
+      refine (ih _).trans ?_
+      refine (List.Perm.append_left xs (insertIdx_perm key x acc)).trans ?_
+      simpa using (List.perm_middle (a := x) (l₁ := xs) (l₂ := acc))
+  simpa [sortIdx] using this (List.range n) []
+
+/-- the first `k` sorted indices pick exactly `min k n` of the `n` children -/
+theorem chosen_count (key : Nat → SortKey) (k n : Nat) :
+    ((List.range n).map (fun i => ((sortIdx key n).take k).contains i)).countP id = min k n := by
+  have hp := sortIdx_perm key n
+  have hnd : (sortIdx key n).Nodup := hp.nodup_iff.2 List.nodup_range
+  rw [List.countP_map]
+  have h1 := countP_contains_eq (List.range n) List.nodup_range ((sortIdx key n).take k)
+    (hnd.sublist (List.take_sublist _ _))
+    (fun a ha => hp.mem_iff.1 (List.mem_of_mem_take ha))
+  have h2 : ((sortIdx key n).take k).length = min k n := by
+    rw [List.length_take, hp.length_eq, List.length_range]
+  rw [← h2, ← h1]
+  rfl
 
 theorem ret_eq_zipWith (chosen : List Nat) (sds : List SatDissat) :
     (List.range (sds.map (·.dissat)).length).map
@@ -231,20 +318,13 @@ theorem ret_eq_zipWith (chosen : List Nat) (sds : List SatDissat) :
     simp [hi]
 
 /-- whenever `thresh`'s satisfaction is a stack, it is the concatenation of one alternative per
-child, with at most `k` children satisfied -/
+child, with exactly `min k n` children satisfied -/
 theorem thresh_sat_choice (c : SatCfg) (k : Nat) (sds : List SatDissat) (w : List Ph)
     (h : (if k = sds.length then foldConcat (sds.map (·.sat))
           else if c.mall then threshMall k (sds.map (·.dissat)) (sds.map (·.sat))
           else threshNonMall k (sds.map (·.dissat)) (sds.map (·.sat))).stack = .stack w) :
-    ∃ ch : List Bool, ch.length = sds.length ∧ ch.countP id ≤ k
+    ∃ ch : List Bool, ch.length = sds.length ∧ ch.countP id = min k sds.length
       ∧ (foldConcat (List.zipWith choose ch sds)).stack = .stack w := by
-  have hchosen : ∀ idx : List Nat,
-      ((List.range sds.length).map (fun i => (idx.take k).contains i)).countP id ≤ k := by
-    intro idx
-    rw [List.countP_map]
-    have := countP_contains_le (List.range sds.length) List.nodup_range (idx.take k)
-    have h2 : (idx.take k).length ≤ k := by simp [List.length_take]; omega
-    exact Nat.le_trans this h2
   split at h
   · rename_i hk
     refine ⟨List.replicate sds.length true, by simp, ?_, ?_⟩
@@ -257,11 +337,15 @@ theorem thresh_sat_choice (c : SatCfg) (k : Nat) (sds : List SatDissat) (w : Lis
   · split at h
     · simp only [threshMall, swapped] at h
       rw [ret_eq_zipWith] at h
-      exact ⟨_, by simp, hchosen _, h⟩
+      refine ⟨_, by simp, ?_, h⟩
+      simp only [List.length_map]
+      exact chosen_count _ k sds.length
     · simp only [threshNonMall, swapped] at h
       have h := ite_ite_stack h
       rw [ret_eq_zipWith] at h
-      exact ⟨_, by simp, hchosen _, h⟩
+      refine ⟨_, by simp, ?_, h⟩
+      simp only [List.length_map]
+      exact chosen_count _ k sds.length
 
 /-! ### dissatisfaction of `thresh`: every child dissatisfied -/
 
